@@ -4,6 +4,7 @@
 package lang
 
 import (
+	"os"
 	"syscall"
 )
 
@@ -12,3 +13,8 @@ func unixProcAttrFauxTTY() *syscall.SysProcAttr {
 }
 
 func UnixPidToFg(_ *Process) {}
+
+// signalledExitNum is the exit number of a process that was ended by a signal
+func signalledExitNum(_ *os.ProcessState) int {
+	return 1
+}
